@@ -138,7 +138,8 @@ class Tracer:
         self.max_depth = max_depth
         self.max_states = max_states
         self.event_hooks: List[Callable] = []   # f(kind_tok, call_node, st, fr, stream_id)
-        self.stmt_hooks: List[Callable] = []    # f(stmt, st, fr)
+        self.stmt_hooks: List[Callable] = []    # f(stmt, st, fr)   after an augmented assignment's value ran
+        self.pre_stmt_hooks: List[Callable] = []  # f(stmt, st, fr) before any simple statement is evaluated
         self._fid = 0
         self._interesting: Dict[int, bool] = {}
         self.inlined: Set[str] = set()
@@ -207,6 +208,12 @@ class Tracer:
                     return f"{self.sym(node.args[0], st, fr)}.{node.args[1].value}"
                 if f.id == "len" and len(node.args) == 1:
                     return f"len({self.sym(node.args[0], st, fr)})"
+                if f.id in ("float", "int", "abs", "round", "bytes", "str", "tuple", "list") and node.args:
+                    return f"{f.id}({self.sym(node.args[0], st, fr)})"
+            streams = [self.stream_of(a, st) for a in list(node.args) + [k.value for k in node.keywords]]
+            streams = [x for x in streams if x is not None]
+            if streams:     # something taken from / done with a stream
+                return f"{self.sym(f, st, fr)}(<stream:{streams[0]}>)"
             return self.sym(f, st, fr) + "()"
         if isinstance(node, ast.IfExp):
             alts = sorted({self.sym(node.body, st, fr), self.sym(node.orelse, st, fr)})
@@ -215,7 +222,19 @@ class Tracer:
             return repr(node.value)
         if isinstance(node, ast.Starred):
             return self.sym(node.value, st, fr)
+        if isinstance(node, (ast.GeneratorExp, ast.ListComp, ast.SetComp)):
+            tmp = self.comp_scope(node, st, fr)
+            return "[" + self.sym(node.elt, tmp, fr) + "]"
         return f"?{type(node).__name__}"
+
+    def comp_scope(self, node, st: St, fr: Frame) -> St:
+        """A state in which the comprehension's targets are bound to the elements they range over."""
+        tmp = St()
+        tmp.env = dict(st.env)
+        for g in node.generators:
+            _, _, elem = self.iter_info(g.iter, tmp, fr)
+            self._bind(g.target, elem, tmp)
+        return tmp
 
     def _global_sym(self, name: str, fr: Frame) -> str:
         tgt = fr.mod.imports.get(name)
@@ -231,11 +250,15 @@ class Tracer:
         return None
 
     # ------------------------------------------------------------------ path conditions / guards
-    def _k(self, e, fr):
+    def _k(self, e, fr, st=None):
+        if st is not None and isinstance(e, (ast.Attribute, ast.Name, ast.Subscript)):
+            s = self.sym(e, st, fr)
+            if s != "@" and SPEC_PATH.fullmatch(s):
+                return ("@", s)          # a fact about the spec object itself: the same in every frame
         return (fr.fid, ast.dump(e))
 
     def tv(self, test, st: St, fr: Frame) -> Optional[bool]:
-        hit = st.pc.get(self._k(test, fr))
+        hit = st.pc.get(self._k(test, fr, st))
         if hit is not None:
             return hit[0]
         if isinstance(test, ast.UnaryOp) and isinstance(test.op, ast.Not):
@@ -260,7 +283,7 @@ class Tracer:
 
     def assume(self, test, pol: bool, st: St, fr: Frame):
         for e, p in atoms(test, pol):
-            st.pc[self._k(e, fr)] = (p, _names(e), self.sym(e, st, fr))
+            st.pc[self._k(e, fr, st)] = (p, _names(e), self.sym(e, st, fr))
 
     def add_guard(self, test, pol: bool, st: St, fr: Frame):
         g = Guard(id(test), pol, len(st.tok), st.loopdepth > 0, test, dict(st.env), fr)
@@ -306,6 +329,9 @@ class Tracer:
         return out
 
     def stmt(self, s, st: St, fr: Frame) -> List[St]:
+        if self.pre_stmt_hooks and isinstance(s, (ast.Expr, ast.Assign, ast.AnnAssign, ast.AugAssign, ast.Return)):
+            for h in self.pre_stmt_hooks:
+                h(s, st, fr)
         if isinstance(s, ast.Expr):
             return self.expr(s.value, st, fr)
         if isinstance(s, ast.Assign):
